@@ -15,7 +15,7 @@ SPEC = {
                 "PyMatterSim.utils.funcs:nidealfac"],
     "must_reach": ["PyMatterSim.static.gr:gr.unary", "PyMatterSim.static.gr:gr.binary", "PyMatterSim.static.gr:gr.ternary",
                    "PyMatterSim.static.gr:gr.quarternary", "PyMatterSim.static.gr:gr.quinary"],
-    "floors": {"columns": 400, "layout": 100, "sum_rule": 80, "routing_probe": 35, "csv": 20},
+    "floors": {"columns": 400, "layout": 100, "sum_rule": 80, "routing_probe": 35, "csv": 20, "same_binning_other_dimension": 10},
     "rule": ("{gas, perturbed lattice, clusters, hard-core} x K=1..6 x {2D,3D} x {orthogonal, triclinic +/-} x masks x "
              "bin widths x 1..4 frames x N 2..70, plus the exhaustive species-pair routing probe (35 pairs for K=1..5); "
              "non-trivial = at least one compared bin holds a pair and fewer than 20% of compared bins are tie-relaxed; "
@@ -106,6 +106,38 @@ def one_case(ctx, rng, wd, K=None, force=None):
             good = bool(np.all(np.abs(back.values - res.values) <= 0.5e-6 + 1e-9 * np.abs(res.values)))
         ctx.check("csv", good, key + "/csv", "CSV differs from returned frame beyond %.6f", info)
         os.remove(outfile)
+    if rng.random() < 0.25:
+        twin_case(ctx, rng, d, w, nb)
+
+
+
+def twin_case(ctx, rng, d_prev, w, nb):
+    """history: a system of the OTHER dimensionality analysed right after, with exactly the same bin width and the same number of bins
+    (what a value remembered under (bins, width) would be reused for)"""
+    from PyMatterSim.static.gr import gr
+    d = 5 - d_prev
+    K = int(rng.integers(1, 4))
+    N = int(rng.integers(max(6, K), 40))
+    Lmin = 2.0 * w * (nb + 0.5)
+    cell = gc.make_cell(rng, d, "ortho", lmin=Lmin, lmax=Lmin * 1.3)
+    cell["H"][0, 0] = cell["L"][0] = Lmin
+    f = gc.make_frac(rng, d, N, "gas")
+    types = gc.make_types(rng, N, K)
+    snaps = gc.snapshots_from([gc.snapshot_from(cell, f, types)])
+    ppp = np.ones(d, dtype=int)
+    Kreal = len(np.unique(types))
+    info = lambda: {"twin_of_dimension": d_prev, "d": d, "N": N, "K": Kreal, "rdelta": w, "bins": nb, "H": cell["H"], "types": types,  # noqa: E731
+                    "positions": snaps.snapshots[0].positions if N <= 30 else "omitted"}
+    key = f"gr/K{Kreal}/same_binning_other_dimension"
+    ok, res = ctx.call(key, lambda: gr(snaps, ppp=ppp, rdelta=w).getresults(), data=info)
+    ctx.case(f"twin/{d}D", snaps.snapshots[0].positions, types, w, nontrivial=True)
+    if not ok or res is None:
+        return
+    ref, r, compare, relaxed, nb2 = rgr.reference([snaps.snapshots[0].positions], [types], [cell["H"]], ppp, w, np.diag(cell["H"]))
+    if nb2 != nb:
+        return
+    if compare_frame(ctx, res, ref, r, compare, relaxed, nb2, Kreal, key, info):
+        ctx.count("same_binning_other_dimension")
 
 
 def routing_probe(ctx):
